@@ -195,8 +195,11 @@ BasicTypeKind TypeChecker::performSignBasedIntegerConversion(
         case BasicTypeKind::Long_U:
             switch (signedTyK) {
                 case BasicTypeKind::LongLong_S:
-                    // TODO: Evaluate and determine.
-                    return signedTyK;
+                    // A long long can't represent all the values of an
+                    // unsigned long of the same width: both operands are
+                    // converted to the unsigned type corresponding to the
+                    // signed one (6.3.1.8-1, last rule).
+                    return BasicTypeKind::LongLong_U;
                 default:
                     return unsignedTyK;
             }
